@@ -115,6 +115,17 @@ func oracleC01(c *oracleCtx) {
 		c01Check(c, src, c01Cfgs(c, src, []string{"c", "p:2020:1"}), false)
 		c.count(src)
 	}
+	// directed sources: template literals — every escape but the backtick's own travels as written; `${…}` is live,
+	// `\${…}` is text; an escaped backslash in front of an escaped backtick
+	for _, src := range []string{
+		"let price = 5\nconsole.log(`write ${price} here`)\nconsole.log(`write \\${price} here`)\nconsole.log(`write \\\\${price} here`)\nconsole.log(`a\\$b`, `$`, `$$`, `\\$`)\n",
+		"console.log(`C:\\\\\\`dir\\``.length)\nconsole.log(`a\\\\\\`b`)\nconsole.log(`\\\\`.length, `\\``.length, `\\\\\\``.length)\n",
+		"let s = `a\\\\\\`.length;//`\nconsole.log(s)\n",
+		"console.log(`\\n\\t\\x41\\u0041\\u{41}`, `line\\\ncontinued`)\n",
+	} {
+		c01Check(c, src, c01Cfgs(c, src, []string{"c", "p:2020:1", "p:09:0"}), false)
+		c.count(src)
+	}
 	for _, in := range c.inputs {
 		if m := recordedInput(in); m != nil {
 			if s := oaStr(m, "src"); s != "" {
